@@ -554,7 +554,7 @@ NOINST int __wrap_usleep(unsigned int us) {
 	case ROLE_HARNESS: return __real_usleep(us);
 	default: {
 		/* application thread inside start/stop/reset/enumeration: "let everything in flight settle, then time passes" */
-		bus_wait_quiescent(2000);
+		bus_wait_quiescent(30000);      /* logical condition; the bound only matters on a machine so loaded that the receiver does not run */
 		vt_advance_us(us);
 		/* logical bound instead of a wall clock: a single call that sleeps through more than vt_call_limit virtual seconds (a start
 		 * takes about 3-10, a stop about 1) is polling for something that will never come - the call does not terminate */
